@@ -414,11 +414,9 @@ def rule_counts_consumed(r, p):
     r.floor("count-sites", n, 3)
 
 
-def run_cfg_rest(ctx, p, cfg):
-    with ctx.rule("A7", "the characters charged are the characters consumed", cfg) as r:
-        rule_counts_consumed(r, p)
-
-    with ctx.rule("A5", "bytes are swallowed only past the cut", cfg) as r:
+def rule_sink_past_cut(ctx, p, cfg, rid="A5"):
+    """MaxWidthWriter::write pretends to have taken bytes it did not forward only when the cut index is zero"""
+    with ctx.rule(rid, "bytes are swallowed only past the cut", cfg) as r:
         pred, cnt = helpers(p)
         mw = [f for f in p.fns.values() if f.d.get("impl_self_adt") == MAXW and f.path.endswith("::write") and f.d.get("impl_trait") == "std::io::Write"]
         f = p.fn_loops(mw[0].path)
@@ -456,6 +454,13 @@ def run_cfg_rest(ctx, p, cfg):
                 why = "sink iff the scanned cut index == 0: %s" % show(other, 5) if ok else "sink guarded by %s" % show(gates[0][1].discr, 5)
             r.require(ok, "sink-only-when-cut-index-is-zero", fn=f, detail=why,
                       fail_detail="MaxWidthWriter::write swallows the buffer under a condition other than `cut index == 0` computed by the lead-byte scan (%s): continuation bytes of a character whose lead byte was already forwarded can be dropped, producing invalid UTF-8" % why)
+
+
+def run_cfg_rest(ctx, p, cfg):
+    with ctx.rule("A7", "the characters charged are the characters consumed", cfg) as r:
+        rule_counts_consumed(r, p)
+
+    rule_sink_past_cut(ctx, p, cfg, "A5")
 
     with ctx.rule("A3", "truncate then pad, never exceed M", cfg) as r:
         f = p.fn(CHUNK_ENCODE)
